@@ -135,6 +135,45 @@ type Sim struct {
 var cur *Sim
 var curMu sync.RWMutex
 
+// reg maps every registered goroutine to the simulation it belongs to, so that a goroutine
+// that outlives its simulated process (blocked, then woken later) still finds its own, dead,
+// simulation at its next seam and unwinds instead of touching a later simulation or the
+// real world.
+var reg = map[uint64]*regEntry{}
+
+type regEntry struct {
+	s *Sim
+	g *Goroutine
+}
+
+func register(s *Sim, g *Goroutine) {
+	id := goid()
+	curMu.Lock()
+	reg[id] = &regEntry{s, g}
+	curMu.Unlock()
+}
+
+func unregister() {
+	id := goid()
+	curMu.Lock()
+	delete(reg, id)
+	curMu.Unlock()
+}
+
+// lookup returns the simulation and goroutine record of the calling goroutine; for an
+// unknown goroutine the active simulation (possibly nil) and nil.
+func lookup() (*Sim, *Goroutine) {
+	id := goid()
+	curMu.RLock()
+	e := reg[id]
+	s := cur
+	curMu.RUnlock()
+	if e != nil {
+		return e.s, e.g
+	}
+	return s, nil
+}
+
 // New creates the state for one simulated process.
 func New() *Sim {
 	return &Sim{
@@ -161,9 +200,7 @@ func Deactivate() {
 }
 
 func active() *Sim {
-	curMu.RLock()
-	s := cur
-	curMu.RUnlock()
+	s, _ := lookup()
 	return s
 }
 
@@ -194,6 +231,7 @@ func (s *Sim) RegisterMain() {
 	s.byGoid[goid()] = g
 	s.live++
 	s.mu.Unlock()
+	register(s, g)
 }
 
 // MainDone marks the end of goroutine 0.
@@ -202,6 +240,7 @@ func (s *Sim) MainDone() {
 	delete(s.byGoid, goid())
 	s.live--
 	s.mu.Unlock()
+	unregister()
 }
 
 func (s *Sim) me() *Goroutine {
@@ -363,6 +402,7 @@ func GoStart(id int) {
 	s.mu.Lock()
 	s.byGoid[goid()] = g
 	s.mu.Unlock()
+	register(s, g)
 	s.park(g, "start")
 }
 
@@ -384,6 +424,7 @@ func GoEnd(id int) {
 	delete(s.byGoid, goid())
 	s.live--
 	s.mu.Unlock()
+	unregister()
 }
 
 func stackTrace() string {
